@@ -28,9 +28,7 @@ func (g *G) NumExpr(d int, env *Env) Expr {
 		return g.NumLit()
 	case 2:
 		fn := g.Pick("count", "sum", "number", "string-length")
-		if fn == "count" {
-			return call(fn, g.CountArg(names))
-		}
+		// C08 quantifies over count()/sum()/number()/string-length() of FLAT paths only
 		return call(fn, g.RelFlat(names))
 	case 3:
 		return call("number", str(NumStrings[g.R.Intn(len(NumStrings))]))
